@@ -1,6 +1,563 @@
 /- Helper lemmas for C02. -/
 import SigV4.Spec.Signer
+import SigV4.Lemmas.Uri
+import SigV4.Lemmas.Query
+import SigV4.Lemmas.Headers
+import SigV4.Lemmas.C01
+import SigV4.Lemmas.C03
+import SigV4.Lemmas.C04
+import SigV4.Lemmas.C12
+import SigV4.Lemmas.C14
+import SigV4.Lemmas.C19
 
 namespace SigV4
+
+/-! ### The canonical request is the reference one -/
+
+theorem c02_canonQuery_merge (A B : List (Bytes × Bytes)) :
+    canonQuery (mergeParams (groupPairs (A.map encPair)) (groupPairs (B.map encPair)))
+      = refCanonQuery (A ++ B) := by
+  rw [← canonQuery_groupPairs]
+  apply c12_canonQuery_of_flatten_perm
+  refine (c12_flattenMap_mergeParams_perm _ _).trans ?_
+  refine List.Perm.trans ?_ (groupPairs_perm' _).symm
+  rw [List.map_append]
+  exact (groupPairs_perm' _).append (groupPairs_perm' _)
+
+theorem c02_headerBlock (hs : HeaderList) (signed : List Bytes) :
+    signed.flatMap (headerLine (normalizeHeaders hs [])) = signed.flatMap (refHeaderLine hs) :=
+  flatMap_congr' _ _ _ fun n _ => headerLine_eq_ref hs n
+
+theorem c02_canonicalRequest_eq_ref (H : Bytes → Bytes) (opts : Options) (other : OtherCharset) (req : Request)
+    (fp : FromParts) (signed : List Bytes) (h : fromRequestParts H opts other req = .ok fp) :
+    refCanonicalRequest H opts other req signed = some (canonicalRequest fp.creq signed) := by
+  unfold fromRequestParts at h
+  unfold refCanonicalRequest
+  rw [canonPath_eq_ref, parseQuery_eq_spec'] at h
+  cases hp : refPath true opts.s3 req.path with
+  | none => rw [hp] at h; simp [optToOutcome] at h
+  | some cp =>
+    rw [hp] at h
+    cases hq : refQueryPairs (req.query.getD []) with
+    | none => rw [hq] at h; simp [optToOutcome] at h
+    | some ps =>
+      rw [hq] at h
+      simp only [optToOutcome, Option.map_some] at h ⊢
+      by_cases hf : foldsBody opts req.headers = true
+      · simp only [hf, if_true] at h ⊢
+        cases hd : decodeFormBody ((contentTypeCharset req.headers).bind (·.2)) other req.body with
+        | err k => rw [hd] at h; simp at h
+        | panic s => rw [hd] at h; simp at h
+        | ok text =>
+          rw [hd] at h
+          simp only at h ⊢
+          rw [parseQuery_eq_spec'] at h
+          cases hb : refQueryPairs text with
+          | none => rw [hb] at h; simp [optToOutcome] at h
+          | some bs =>
+            rw [hb] at h
+            simp only [optToOutcome, Option.map_some] at h ⊢
+            repeat' split at h
+            all_goals cases h
+            all_goals simp only [canonicalRequest, c02_canonQuery_merge, c02_headerBlock]
+      · simp only [hf] at h ⊢
+        injection h with h
+        subst h
+        simp only [canonicalRequest, canonQuery_groupPairs, c02_headerBlock]
+        simp
+
+theorem c02_fromRequestParts_complete (H : Bytes → Bytes) (opts : Options) (other : OtherCharset) (req : Request)
+    (signed : List Bytes) (creq : Bytes) (h : refCanonicalRequest H opts other req signed = some creq) :
+    (∃ fp, fromRequestParts H opts other req = .ok fp) ∨
+    (foldsBody opts req.headers = true ∧ fromRequestParts H opts other req = .err .MalformedQueryString) := by
+  unfold refCanonicalRequest at h
+  unfold fromRequestParts
+  rw [canonPath_eq_ref, parseQuery_eq_spec']
+  cases hp : refPath true opts.s3 req.path with
+  | none => rw [hp] at h; simp at h
+  | some cp =>
+    rw [hp] at h
+    cases hq : refQueryPairs (req.query.getD []) with
+    | none => rw [hq] at h; simp at h
+    | some ps =>
+      rw [hq] at h
+      simp only [optToOutcome, Option.map_some] at h ⊢
+      by_cases hf : foldsBody opts req.headers = true
+      · simp only [hf, if_true] at h ⊢
+        cases hd : decodeFormBody ((contentTypeCharset req.headers).bind (·.2)) other req.body with
+        | err k => rw [hd] at h; simp at h
+        | panic s => rw [hd] at h; simp at h
+        | ok text =>
+          rw [hd] at h
+          simp only at h ⊢
+          rw [parseQuery_eq_spec']
+          cases hb : refQueryPairs text with
+          | none => rw [hb] at h; simp at h
+          | some bs =>
+            simp only [optToOutcome, Option.map_some]
+            generalize (if canonQuery (mergeParams (groupPairs (List.map encPair ps)) (groupPairs (List.map encPair bs))) = [] then cp else _) = pq
+            by_cases hl : pq.length > URI_MAX_LEN
+            · rw [if_pos hl]; exact .inr ⟨trivial, rfl⟩
+            · rw [if_neg hl]; exact .inl ⟨_, rfl⟩
+      · simp only [hf]
+        exact .inl ⟨_, rfl⟩
+
+theorem c02_spelling_independent (H : Bytes → Bytes) (opts : Options) (other : OtherCharset) (w w' : Request)
+    (signed : List Bytes) (ps ps' : List (Bytes × Bytes))
+    (hf : foldsBody opts w.headers = false) (hf' : foldsBody opts w'.headers = false)
+    (hm : w.method = w'.method) (hp : refPath true opts.s3 w.path = refPath true opts.s3 w'.path)
+    (hq : refQueryPairs (w.query.getD []) = some ps) (hq' : refQueryPairs (w'.query.getD []) = some ps')
+    (hperm : ps.Perm ps')
+    (hh : ∀ n ∈ signed, refHeaderLine w.headers n = refHeaderLine w'.headers n)
+    (hb : w.body = w'.body) :
+    refCanonicalRequest H opts other w signed = refCanonicalRequest H opts other w' signed := by
+  unfold refCanonicalRequest
+  rw [hp, hq, hq', hf, hf', hm, hb]
+  simp only [Bool.false_eq_true, if_false, refCanonQuery_perm hperm, flatMap_congr' _ _ _ hh]
+
+theorem c02_spelling_examples :
+    refPath true false b!"/%61/b%2fc/%7E" = refPath true false b!"/a/b%2Fc/~" ∧
+    (refQueryPairs b!"a=b+c&a=%31&%61=x").map List.length = some 3 ∧
+    refQueryPairs b!"k=b+c" = refQueryPairs b!"%6b=b%20c" ∧
+    refHeaderValue b!"  a   b " = refHeaderValue b!"a b" := by
+  decide
+
+/-! ### Completeness -/
+
+theorem c02_accept_of {σ : Type} (H : Bytes → Bytes) (cfg : Config) (P : Provider σ) (s : σ) (req : Request)
+    (a : Authenticator) (resp : ProviderResp) (sts : Bytes)
+    (ha : authOf H cfg req = .ok a) (hpre : prevalidate a cfg.region cfg.service cfg.now = .ok ())
+    (hr : (P.ready s).1 = none)
+    (hcall : (P.call (P.ready s).2 (providerReqOf a cfg.region cfg.service)).1 = .ok resp)
+    (hsts : stringToSign a = .ok sts) (hsig : a.signature = hexLower (hmac H resp.key sts)) :
+    ∃ r, (validate H cfg P s req).out = .ok r := by
+  obtain ⟨fp, _, _, hv⟩ := validate_of_authOf_ok H cfg P s req a ha
+  rw [hv, validateSignature_of_prevalidate_ok H P s a _ _ _ sts hpre hsts]
+  rcases getSigningKey_cases P s a cfg.region cfg.service with
+    ⟨e, he, _⟩ | ⟨_, e, he, _⟩ | ⟨_, resp', hcall', hg⟩
+  · rw [hr] at he; cases he
+  · rw [hcall] at he; cases he
+  · rw [hcall] at hcall'
+    injection hcall' with hcall'
+    subst hcall'
+    rw [hg]
+    simp only [finish, if_pos hsig, Outcome.map_ok]
+    exact ⟨_, rfl⟩
+
+theorem c02_complete {σ : Type} (H : Bytes → Bytes) (cfg : Config) (P : Provider σ) (s : σ) (req : Request)
+    (fp : FromParts) (ap : AuthParams) (t : Int) (ak creq : Bytes) (resp : ProviderResp)
+    (hfp : fromRequestParts H cfg.opts cfg.other req = .ok fp)
+    (hap : extractAuthParams fp.creq = .ok ap)
+    (hreq : requirementsMet cfg.reqs fp.creq.headers ap.signedHeaders = true)
+    (ht : parseIso ap.timestampStr = some t) (hw : inWindow t cfg.now) (hrep : nowRepresentable cfg.now)
+    (hcred : splitOn 0x2F ap.credential = [ak, fmtDate (utcDate t), cfg.region, cfg.service, b!"aws4_request"])
+    (hready : (P.ready s).1 = none)
+    (hkey : (P.call (P.ready s).2 (ProviderReq.mk ak ap.sessionToken (utcDate t) cfg.region cfg.service)).1 = .ok resp)
+    (hcreq : refCanonicalRequest H cfg.opts cfg.other req ap.signedHeaders = some creq)
+    (hsig : ap.signature = refSignature H resp.key t (fmtDate (utcDate t)) cfg.region cfg.service creq) :
+    ∃ r, (validate H cfg P s req).out = .ok r := by
+  let a : Authenticator :=
+    { creqSha := H (canonicalRequest fp.creq ap.signedHeaders), credential := ap.credential,
+      sessionToken := ap.sessionToken, signature := ap.signature, timestamp := t }
+  have ha : authOf H cfg req = .ok a := by
+    unfold authOf
+    rw [hfp]
+    simp only [getAuthenticator, getAuthParams, hap, hreq, if_true, authenticatorOf, ht]
+    rfl
+  have hcred' : splitOn 0x2F a.credential =
+      [ak, fmtDate (utcDate a.timestamp), cfg.region, cfg.service, b!"aws4_request"] := hcred
+  have hpre : prevalidate a cfg.region cfg.service cfg.now = .ok () := by
+    rw [prevalidate_eq_scopeCheck_of_inWindow a cfg.region cfg.service cfg.now hrep hw]
+    exact (scopeCheck_ok_iff' a cfg.region cfg.service).2 ⟨ak, hcred'⟩
+  have hsts := c01_stringToSign_of_five a ak _ _ _ _ hcred'
+  have hsf := c01_splitFirst_of_splitOn 0x2F a.credential ak _ _ hcred'
+  have hce := c02_canonicalRequest_eq_ref H cfg.opts cfg.other req fp ap.signedHeaders hfp
+  rw [hcreq] at hce
+  injection hce with hce
+  refine c02_accept_of H cfg P s req a resp _ ha hpre hready ?_ hsts ?_
+  · simp only [providerReqOf, hsf]
+    exact hkey
+  · show ap.signature = _
+    rw [hsig, hce]
+    rfl
+
+/-! ### The query carrier -/
+
+theorem c02_unescapeUri_pct (h1 h2 a b : UInt8) (rest : Bytes)
+    (ha : hexVal h1 = some a) (hb : hexVal h2 = some b) :
+    unescapeUri (0x25 :: h1 :: h2 :: rest) = (unescapeUri rest).map (latin1Byte (a * 16 + b) ++ ·) := by
+  rw [unescapeUri.eq_def]; simp [ha, hb]
+
+theorem c02_unescapeUri_other (c : UInt8) (rest : Bytes) (h : c ≠ 0x25) :
+    unescapeUri (c :: rest) = (unescapeUri rest).map (latin1Byte c ++ ·) := by
+  rw [unescapeUri.eq_def]; simp [h]
+
+theorem c02_unescapeUri_pctEncodeAll (v : Bytes) :
+    unescapeUri (pctEncodeAll v) = .ok (latin1ToString v) := by
+  induction v with
+  | nil => simp [pctEncodeAll_nil, unescapeUri, latin1ToString]
+  | cons x d ih =>
+    rw [pctEncodeAll_cons]
+    by_cases hx : isUnreserved x = true
+    · obtain ⟨h1, -, -, -⟩ := unreserved_facts x hx
+      simp only [hx, if_true, List.singleton_append]
+      rw [c02_unescapeUri_other _ _ h1, ih]
+      simp [latin1ToString]
+    · obtain ⟨f1, f2, f3, -⟩ := pctEncode_facts x
+      simp only [hx, pctEncode]
+      show unescapeUri (37 :: _ :: _ :: pctEncodeAll d) = _
+      rw [c02_unescapeUri_pct _ _ _ _ _ f1 f2, ih, f3]
+      simp [latin1ToString]
+
+theorem c02_latin1ToString_ascii (v : Bytes) (h : ∀ x ∈ v, x < 0x80) : latin1ToString v = v := by
+  induction v with
+  | nil => rfl
+  | cons x d ih =>
+    have hx : x < 0x80 := h x (by simp)
+    have := ih (fun y hy => h y (by simp [hy]))
+    unfold latin1ToString at this ⊢
+    simp only [List.flatMap_cons, this, latin1Byte, hx, if_true, List.singleton_append]
+
+theorem c02_firstOf_groupPairs (l : List (Bytes × Bytes)) (k : Bytes) :
+    firstOf (groupPairs l) k = (l.find? fun kv => kv.1 = k).map (·.2) := by
+  unfold firstOf
+  rw [groupPairs_get, ← List.head?_filter]
+  cases List.filter (fun kv : Bytes × Bytes => decide (kv.1 = k)) l <;> simp
+
+theorem c02_find_encPair (pairs : List (Bytes × Bytes)) (name : Bytes) (hname : pctEncodeAll name = name) :
+    ((pairs.map encPair).find? fun kv => kv.1 = name) = (pairs.find? fun kv => kv.1 = name).map encPair := by
+  induction pairs with
+  | nil => rfl
+  | cons p ps ih =>
+    simp only [List.map_cons, List.find?_cons]
+    by_cases hp : p.1 = name
+    · have : (encPair p).1 = name := by simp [encPair, hp, hname]
+      simp [hp, this]
+    · have : (encPair p).1 ≠ name := by
+        intro he
+        apply hp
+        apply pctEncodeAll_inj
+        rw [hname]
+        exact he
+      simp [hp, this, ih]
+
+theorem c02_query_carrier_decoded (q : Bytes) (m : QueryMap) (name value : Bytes) (pairs : List (Bytes × Bytes))
+    (hq : parseQuery q = .ok m) (hp : refQueryPairs q = some pairs)
+    (hfirst : (pairs.find? fun kv => kv.1 = name) = some (name, value))
+    (hname : pctEncodeAll name = name) (hascii : ∀ x ∈ value, x < 0x80) :
+    ∃ v, firstOf m name = some v ∧ unescapeUri v = .ok value := by
+  rw [parseQuery_eq_spec', hp] at hq
+  simp only [Option.map_some, optToOutcome, Outcome.ok.injEq] at hq
+  subst hq
+  refine ⟨pctEncodeAll value, ?_, ?_⟩
+  · rw [c02_firstOf_groupPairs, c02_find_encPair _ _ hname, hfirst]
+    rfl
+  · rw [c02_unescapeUri_pctEncodeAll, c02_latin1ToString_ascii _ hascii]
+
+/-! ### The header carrier -/
+
+theorem c02_splitFirst_append_sep (sep : UInt8) (x r : Bytes) (h : sep ∉ x) :
+    splitFirst sep (x ++ sep :: r) = (x, some r) := by
+  induction x with
+  | nil => simp [splitFirst]
+  | cons c x ih =>
+    simp only [List.mem_cons, not_or] at h
+    rw [List.cons_append, splitFirst, if_neg (Ne.symm h.1), ih h.2]
+
+theorem c02_splitOn_commaSpace (x : Bytes) (l : List Bytes) (h : ∀ y ∈ x :: l, (0x2C : UInt8) ∉ y) :
+    splitOn 0x2C (joinWith [0x2C, 0x20] (x :: l)) = x :: l.map (0x20 :: ·) := by
+  induction l generalizing x with
+  | nil => simpa [joinWith] using splitOn_no_sep 0x2C x (h x List.mem_cons_self)
+  | cons y rest ih =>
+    rw [joinWith_cons_cons]
+    have e : x ++ [0x2C, 0x20] ++ joinWith [0x2C, 0x20] (y :: rest)
+        = x ++ 0x2C :: (0x20 :: joinWith [0x2C, 0x20] (y :: rest)) := by simp
+    rw [e, splitOn_append_sep _ _ _ (h x List.mem_cons_self)]
+    obtain ⟨hd, tl, e1, e2⟩ := splitOn_cons_ne 0x2C 0x20 (joinWith [0x2C, 0x20] (y :: rest)) (by decide)
+    rw [ih y (fun z hz => h z (List.mem_cons_of_mem _ hz))] at e1
+    injection e1 with e1 e1'
+    subst e1; subst e1'
+    rw [e2]
+    rfl
+
+/-! ### trimming -/
+
+theorem c02_trimAscii_eq_self (s : Bytes) (hh : ∀ c, s.head? = some c → isAsciiWs c = false)
+    (hl : ∀ c, s.getLast? = some c → isAsciiWs c = false) : trimAscii s = s := by
+  have h1 : trimAsciiStart s = s := by
+    cases s with
+    | nil => rfl
+    | cons a t =>
+      have := hh a rfl
+      simp [trimAsciiStart, this]
+  unfold trimAscii trimAsciiEnd
+  rw [h1]
+  exact dropWhileEnd_eq_self _ _ hl
+
+theorem c02_trimAscii_noWs (p : Bytes) (h : ∀ x ∈ p, isAsciiWs x = false) : trimAscii p = p := by
+  apply c02_trimAscii_eq_self
+  · intro c hc
+    exact h c (List.mem_of_mem_head? hc)
+  · intro c hc
+    exact h c (List.mem_of_getLast? hc)
+
+theorem c02_trimAscii_space_cons (p : Bytes) : trimAscii (0x20 :: p) = trimAscii p := by
+  have : isAsciiWs 0x20 = true := by decide
+  simp [trimAscii, trimAsciiStart, this]
+
+theorem c02_joinWith_getLast (sep : Bytes) (l : List Bytes) (hne : ∀ x ∈ l, x ≠ []) (hl : l ≠ []) :
+    joinWith sep l ≠ [] ∧ ∀ c, (joinWith sep l).getLast? = some c → ∃ x ∈ l, c ∈ x := by
+  induction l with
+  | nil => exact absurd rfl hl
+  | cons x l ih =>
+    cases l with
+    | nil =>
+      simp only [joinWith]
+      exact ⟨hne x List.mem_cons_self, fun c hc => ⟨x, List.mem_cons_self, List.mem_of_getLast? hc⟩⟩
+    | cons y rest =>
+      obtain ⟨i1, i2⟩ := ih (fun z hz => hne z (List.mem_cons_of_mem _ hz)) (by simp)
+      rw [joinWith_cons_cons]
+      refine ⟨by simp [i1], fun c hc => ?_⟩
+      rw [List.getLast?_append] at hc
+      cases hg : (joinWith sep (y :: rest)).getLast? with
+      | none => exact absurd (List.getLast?_eq_none_iff.1 hg) i1
+      | some d =>
+        rw [hg] at hc
+        injection hc with hc
+        subst hc
+        obtain ⟨z, hz, hcz⟩ := i2 d hg
+        exact ⟨z, List.mem_cons_of_mem _ hz, hcz⟩
+
+/-! ### the parameter loop -/
+
+theorem c02_loop_ok (l : List Bytes) (m0 : List (Bytes × Bytes))
+    (h : ∀ p ∈ l, ∃ k v, splitFirst 0x3D (trimAscii p) = (k, some v)) :
+    ∃ m, authHeaderParamLoop l m0 = .ok m := by
+  induction l generalizing m0 with
+  | nil => exact ⟨m0, by simp [authHeaderParamLoop]⟩
+  | cons p rest ih =>
+    obtain ⟨k, v, hkv⟩ := h p List.mem_cons_self
+    have hrest := fun q hq => h q (List.mem_cons_of_mem _ hq)
+    unfold authHeaderParamLoop
+    simp only
+    split
+    · exact ih _ hrest
+    · rw [hkv]
+      exact ih _ hrest
+
+theorem c02_findSome_unique {α β : Type} (f : α → Option β) (l : List α) (v : β)
+    (h1 : ∀ x ∈ l, f x = some v ∨ f x = none) (h2 : ∃ x ∈ l, f x = some v) :
+    l.findSome? f = some v := by
+  induction l with
+  | nil => obtain ⟨x, hx, _⟩ := h2; simp at hx
+  | cons a t ih =>
+    rw [List.findSome?_cons]
+    rcases h1 a List.mem_cons_self with ha | ha
+    · rw [ha]
+    · rw [ha]
+      apply ih (fun x hx => h1 x (List.mem_cons_of_mem _ hx))
+      obtain ⟨x, hx, hfx⟩ := h2
+      rcases List.mem_cons.1 hx with rfl | hx
+      · rw [ha] at hfx; cases hfx
+      · exact ⟨x, hx, hfx⟩
+
+def c02_render (kv : Bytes × Bytes) : Bytes := kv.1 ++ 0x3D :: kv.2
+
+theorem c02_paramSel_of_trim (k : Bytes) (p : Bytes) (kv : Bytes × Bytes) (hk : (0x3D : UInt8) ∉ kv.1)
+    (h : trimAscii p = c02_render kv) : paramSel k p = if kv.1 = k then some kv.2 else none := by
+  unfold paramSel
+  rw [h, c02_render, c02_splitFirst_append_sep _ _ _ hk]
+
+/-- The loop over the comma-split parameter text of any ordering of distinct `key=value`
+parameters whose bytes are neither whitespace nor commas delivers every value. -/
+theorem c02_loop_delivers (kvs : List (Bytes × Bytes)) (ps : List Bytes) (hps : ps ≠ [])
+    (hperm : ps.Perm (kvs.map c02_render))
+    (hkey : ∀ kv ∈ kvs, (0x3D : UInt8) ∉ kv.1)
+    (hbytes : ∀ kv ∈ kvs, ∀ x ∈ c02_render kv, isAsciiWs x = false ∧ x ≠ 0x2C)
+    (hinj : ∀ kv ∈ kvs, ∀ kv' ∈ kvs, kv.1 = kv'.1 → kv.2 = kv'.2) :
+    ∃ m, authHeaderParamLoop (splitOn 0x2C (joinWith [0x2C, 0x20] ps)) [] = .ok m ∧
+      ∀ kv ∈ kvs, assocGet m kv.1 = some kv.2 := by
+  obtain ⟨p0, rest, rfl⟩ := List.exists_cons_of_ne_nil hps
+  have hmem : ∀ p, p ∈ p0 :: rest ↔ ∃ kv ∈ kvs, p = c02_render kv := by
+    intro p
+    rw [hperm.mem_iff, List.mem_map]
+    constructor
+    · rintro ⟨kv, h1, h2⟩; exact ⟨kv, h1, h2.symm⟩
+    · rintro ⟨kv, h1, h2⟩; exact ⟨kv, h1, h2.symm⟩
+  have hnc : ∀ y ∈ p0 :: rest, (0x2C : UInt8) ∉ y := by
+    intro y hy hc
+    obtain ⟨kv, hkv, rfl⟩ := (hmem y).1 hy
+    exact (hbytes kv hkv _ hc).2 rfl
+  rw [c02_splitOn_commaSpace p0 rest hnc]
+  -- every piece trims to a rendered parameter
+  have hA : ∀ p' ∈ p0 :: rest.map (0x20 :: ·), ∃ kv ∈ kvs, trimAscii p' = c02_render kv := by
+    intro p' hp'
+    rcases List.mem_cons.1 hp' with rfl | hp'
+    · obtain ⟨kv, hkv, e⟩ := (hmem p').1 List.mem_cons_self
+      refine ⟨kv, hkv, ?_⟩
+      rw [e]
+      exact c02_trimAscii_noWs _ fun x hx => (hbytes kv hkv x hx).1
+    · obtain ⟨q, hq, rfl⟩ := List.mem_map.1 hp'
+      obtain ⟨kv, hkv, e⟩ := (hmem q).1 (List.mem_cons_of_mem _ hq)
+      refine ⟨kv, hkv, ?_⟩
+      rw [c02_trimAscii_space_cons, e]
+      exact c02_trimAscii_noWs _ fun x hx => (hbytes kv hkv x hx).1
+  have hB : ∀ kv ∈ kvs, ∃ p' ∈ p0 :: rest.map (0x20 :: ·), trimAscii p' = c02_render kv := by
+    intro kv hkv
+    have hm := (hmem (c02_render kv)).2 ⟨kv, hkv, rfl⟩
+    have ht : trimAscii (c02_render kv) = c02_render kv :=
+      c02_trimAscii_noWs _ fun x hx => (hbytes kv hkv x hx).1
+    rcases List.mem_cons.1 hm with e | hm
+    · exact ⟨p0, List.mem_cons_self, by rw [← e, ht]⟩
+    · refine ⟨0x20 :: c02_render kv, List.mem_cons_of_mem _ (List.mem_map.2 ⟨_, hm, rfl⟩), ?_⟩
+      rw [c02_trimAscii_space_cons, ht]
+  obtain ⟨m, hm⟩ := c02_loop_ok (p0 :: rest.map (0x20 :: ·)) [] (by
+    intro p' hp'
+    obtain ⟨kv, hkv, e⟩ := hA p' hp'
+    exact ⟨kv.1, kv.2, by rw [e, c02_render, c02_splitFirst_append_sep _ _ _ (hkey kv hkv)]⟩)
+  refine ⟨m, hm, fun kv hkv => ?_⟩
+  rw [authHeaderParamLoop_get _ _ _ kv.1 hm]
+  have : List.findSome? (paramSel kv.1) (p0 :: rest.map (0x20 :: ·)).reverse = some kv.2 := by
+    apply c02_findSome_unique
+    · intro p' hp'
+      obtain ⟨kv', hkv', e⟩ := hA p' (List.mem_reverse.1 hp')
+      rw [c02_paramSel_of_trim _ _ kv' (hkey kv' hkv') e]
+      by_cases hk : kv'.1 = kv.1
+      · left; rw [if_pos hk, hinj kv' hkv' kv hkv hk]
+      · right; rw [if_neg hk]
+    · obtain ⟨p', hp', e⟩ := hB kv hkv
+      refine ⟨p', List.mem_reverse.2 hp', ?_⟩
+      rw [c02_paramSel_of_trim _ _ kv (hkey kv hkv) e, if_pos rfl]
+  rw [this]
+  rfl
+
+theorem c02_authValueByte_facts : ∀ x : UInt8, isAuthValueByte x = true →
+    x < 0x80 ∧ isAsciiWs x = false ∧ x ≠ 0x2C := by
+  apply u8_forall; decide +kernel
+
+theorem c02_map_latin1_ascii (l : List Bytes) (h : ∀ s ∈ l, ∀ x ∈ s, x < 0x80) :
+    l.map latin1ToString = l := by
+  induction l with
+  | nil => rfl
+  | cons a t ih =>
+    rw [List.map_cons, c02_latin1ToString_ascii a (h a List.mem_cons_self),
+      ih (fun s hs => h s (List.mem_cons_of_mem _ hs))]
+
+theorem c02_header_carrier_extraction (c : CanonReq) (cred sh sig : Bytes) (ps : List Bytes) (date : Bytes)
+    (hq : assocGet c.params X_AMZ_ALGORITHM = none)
+    (hperm : ps.Perm [b!"Credential=" ++ cred, b!"SignedHeaders=" ++ sh, b!"Signature=" ++ sig])
+    (hv : ∀ x ∈ cred ++ sh ++ sig, isAuthValueByte x = true)
+    (rest : List Bytes)
+    (hah : assocGet c.headers AUTHORIZATION = some ((AWS4_HMAC_SHA256 ++ [0x20] ++ joinWith b!", " ps) :: rest))
+    (hdate : (match firstOf c.headers X_AMZ_DATE_LOWER with
+              | some d => some d
+              | none => firstOf c.headers DATE) = some date) :
+    extractAuthParams c = .ok (AuthParams.mk cred sig ((firstOf c.headers X_AMZ_SECURITY_TOKEN_LOWER).map latin1ToString)
+        (sortNames (splitOn 0x3B sh)) (latin1ToString date)) := by
+  have hvc : ∀ x ∈ cred, isAuthValueByte x = true := fun x hx => hv x (by simp [hx])
+  have hvh : ∀ x ∈ sh, isAuthValueByte x = true := fun x hx => hv x (by simp [hx])
+  have hvs : ∀ x ∈ sig, isAuthValueByte x = true := fun x hx => hv x (by simp [hx])
+  have hperm' : ps.Perm ([(CREDENTIAL, cred), (SIGNED_HEADERS, sh), (SIGNATURE, sig)].map c02_render) := hperm
+  have hps : ps ≠ [] := by
+    intro h
+    rw [h] at hperm
+    exact absurd hperm.length_eq (by simp)
+  have hlit : ∀ k ∈ [CREDENTIAL, SIGNED_HEADERS, SIGNATURE],
+      (0x3D : UInt8) ∉ k ∧ ∀ x ∈ k ++ [0x3D], isAsciiWs x = false ∧ x ≠ 0x2C := by decide
+  have hbytes : ∀ k ∈ [CREDENTIAL, SIGNED_HEADERS, SIGNATURE], ∀ v : Bytes,
+      (∀ x ∈ v, isAuthValueByte x = true) →
+      ∀ x ∈ c02_render (k, v), isAsciiWs x = false ∧ x ≠ 0x2C := by
+    intro k hk v hvv x hx
+    unfold c02_render at hx
+    rcases List.mem_append.1 hx with h1 | h1
+    · exact (hlit k hk).2 x (by simp [h1])
+    · rcases List.mem_cons.1 h1 with rfl | h1
+      · exact (hlit k hk).2 _ (by simp)
+      · exact (c02_authValueByte_facts x (hvv x h1)).2
+  obtain ⟨m, hm, hget⟩ := c02_loop_delivers
+    [(CREDENTIAL, cred), (SIGNED_HEADERS, sh), (SIGNATURE, sig)] ps hps hperm'
+    (by
+      intro kv hkv
+      simp only [List.mem_cons, List.not_mem_nil, or_false] at hkv
+      rcases hkv with rfl | rfl | rfl
+      · exact (hlit CREDENTIAL (by simp)).1
+      · exact (hlit SIGNED_HEADERS (by simp)).1
+      · exact (hlit SIGNATURE (by simp)).1)
+    (by
+      intro kv hkv
+      simp only [List.mem_cons, List.not_mem_nil, or_false] at hkv
+      rcases hkv with rfl | rfl | rfl
+      · exact hbytes CREDENTIAL (by simp) cred hvc
+      · exact hbytes SIGNED_HEADERS (by simp) sh hvh
+      · exact hbytes SIGNATURE (by simp) sig hvs)
+    (by
+      have d1 : CREDENTIAL ≠ SIGNED_HEADERS := by decide
+      have d2 : CREDENTIAL ≠ SIGNATURE := by decide
+      have d3 : SIGNED_HEADERS ≠ SIGNATURE := by decide
+      intro kv hkv kv' hkv' he
+      simp only [List.mem_cons, List.not_mem_nil, or_false] at hkv hkv'
+      rcases hkv with rfl | rfl | rfl <;> rcases hkv' with rfl | rfl | rfl <;>
+        first
+          | rfl
+          | exact absurd he d1 | exact absurd he d2 | exact absurd he d3
+          | exact absurd he.symm d1 | exact absurd he.symm d2 | exact absurd he.symm d3)
+  have gc := hget (CREDENTIAL, cred) (by simp)
+  have gh := hget (SIGNED_HEADERS, sh) (by simp)
+  have gs := hget (SIGNATURE, sig) (by simp)
+  simp only at gc gh gs
+  -- the whole header value is already trimmed
+  obtain ⟨jne, jlast⟩ := c02_joinWith_getLast [0x2C, 0x20] ps (by
+      intro x hx he
+      have := hperm'.mem_iff.1 hx
+      simp only [List.map_cons, List.map_nil, List.mem_cons, List.not_mem_nil, or_false] at this
+      rcases this with rfl | rfl | rfl <;> simp [c02_render] at he) hps
+  have htrim : trimAscii (AWS4_HMAC_SHA256 ++ [0x20] ++ joinWith [0x2C, 0x20] ps)
+      = AWS4_HMAC_SHA256 ++ [0x20] ++ joinWith [0x2C, 0x20] ps := by
+    apply c02_trimAscii_eq_self
+    · intro a ha
+      simp [AWS4_HMAC_SHA256] at ha
+      subst ha
+      decide
+    · intro a ha
+      rw [List.getLast?_append] at ha
+      cases hg : (joinWith [0x2C, 0x20] ps).getLast? with
+      | none => exact absurd (List.getLast?_eq_none_iff.1 hg) jne
+      | some d =>
+        rw [hg] at ha
+        injection ha with ha
+        subst ha
+        obtain ⟨x, hx, hdx⟩ := jlast d hg
+        have := hperm'.mem_iff.1 hx
+        simp only [List.map_cons, List.map_nil, List.mem_cons, List.not_mem_nil, or_false] at this
+        rcases this with rfl | rfl | rfl
+        · exact (hbytes CREDENTIAL (by simp) cred hvc d hdx).1
+        · exact (hbytes SIGNED_HEADERS (by simp) sh hvh d hdx).1
+        · exact (hbytes SIGNATURE (by simp) sig hvs d hdx).1
+  have hsf : splitFirst 0x20 (AWS4_HMAC_SHA256 ++ [0x20] ++ joinWith [0x2C, 0x20] ps)
+      = (AWS4_HMAC_SHA256, some (joinWith [0x2C, 0x20] ps)) := by
+    rw [List.append_assoc, List.singleton_append]
+    exact c02_splitFirst_append_sep _ _ _ (by decide)
+  have hasc : ∀ v : Bytes, (∀ x ∈ v, isAuthValueByte x = true) → latin1ToString v = v :=
+    fun v hvv => c02_latin1ToString_ascii v fun x hx => (c02_authValueByte_facts x (hvv x hx)).1
+  unfold extractAuthParams
+  rw [hah, hq]
+  simp only
+  unfold authParamsFromHeader
+  simp only [htrim, hsf, ne_eq, not_true_eq_false, if_false, Option.getD_some, hm, gc, gh, gs]
+  have hfin : ∀ s ∈ splitOn 0x3B sh, ∀ x ∈ s, x < 0x80 := by
+    intro s hs x hx
+    exact (c02_authValueByte_facts x (hvh x (splitOn_mem _ _ s hs x hx))).1
+  cases hx : firstOf c.headers X_AMZ_DATE_LOWER with
+  | some d =>
+    rw [hx] at hdate
+    simp only [Option.some.injEq] at hdate
+    subst hdate
+    simp only
+    rw [hasc cred hvc, hasc sig hvs, c02_map_latin1_ascii _ hfin]
+  | none =>
+    rw [hx] at hdate
+    simp only at hdate
+    simp only [hdate]
+    rw [hasc cred hvc, hasc sig hvs, c02_map_latin1_ascii _ hfin]
 
 end SigV4
